@@ -214,9 +214,20 @@ pub fn gen_tx(r: &mut Rng, focus: Focus) -> tir::Tx {
             address: address(r, focus),
             datum: if r.chance(1, 3) { const_data(r, 2) } else { E::None },
             amount: amount_expr(r, focus, depth),
-            optional: focus == Focus::C10 && r.chance(1, 3),
+            optional: (focus == Focus::C10 && r.chance(1, 3)) || (focus == Focus::C02 && r.chance(1, 6)),
         })
         .collect::<Vec<_>>();
+    let mut outputs = outputs;
+    if focus == Focus::C02 {
+        for o in outputs.iter_mut().filter(|o| o.optional) {
+            // optional outputs that hold nothing, lovelace only, or tokens only
+            match r.below(3) {
+                0 => o.amount = E::Assets(vec![tir::AssetExpr { policy: E::None, asset_name: E::None, amount: E::Number(0) }]),
+                1 => o.amount = E::Assets(vec![tir::AssetExpr { policy: E::Bytes(policy_bytes(0x11)), asset_name: E::Bytes(b"t1".to_vec()), amount: E::Number(1 + r.below(50) as i128) }]),
+                _ => {}
+            }
+        }
+    }
     // mint / burn
     let mk_mint = |r: &mut Rng, pol: u8| tir::Mint {
         amount: E::Assets(vec![tir::AssetExpr {
